@@ -151,7 +151,7 @@ def run_shard(spec):
             add_patch(a, to_plain(d), to_plain(p), "generic", {})
         for k in range(spec["triples"]):
             gen = NBGen(r, exotic=(k % 3 == 0))
-            cls = ["minor_diff", "exec_count", None, None, "same_line", None][k % 6]
+            cls = ["minor_diff", "exec_count", None, "same_insert_edit_below", "same_line", None][k % 6]
             cls, b, l, rm, info, waste = valid_triple(gen, cls=cls, minor=(5 if k % 6 == 5 else None))
             if cls is None:
                 continue
